@@ -1213,29 +1213,50 @@ func c19PostprocessorBody(c *Ctx) {
 				cur, stop, reader = site.Parent(), site, a
 			}
 			sNewReader := Spec{"bytes", "", "NewReader"}
-			fromNew := DerivesAny(reader, false, func(v ssa.Value) bool {
-				cl, _ := CallOfValue(v)
-				return cl != nil && MatchCC(&cl.Call, sNewReader)
-			})
-			lenPos := func(v ssa.Value) bool {
-				b, ok := v.(*ssa.BinOp)
-				if !ok {
-					return false
+			fromNew := false
+			for _, rv := range ThroughReturns(reader) { // (the body may be read by a helper that returns the reader)
+				if DerivesAny(rv, false, func(v ssa.Value) bool {
+					cl, _ := CallOfValue(v)
+					return cl != nil && MatchCC(&cl.Call, sNewReader)
+				}) {
+					fromNew = true
 				}
-				f := Fact{Op: b.Op, X: b.X, Y: b.Y}.Canon() // X < / <= Y
-				k, isK := ConstInt(f.X)
-				if !isK || f.Op != token.LSS || k != 0 {
-					return false
+			}
+			// comparisons of len(<the processors>) with 0 / 1, answered for a non-empty list
+			lenCmp := func(want bool) func(v ssa.Value) bool {
+				return func(v ssa.Value) bool {
+					b, ok := v.(*ssa.BinOp)
+					if !ok {
+						return false
+					}
+					isLen := func(x ssa.Value) bool {
+						cl, isCall := x.(*ssa.Call)
+						if !isCall {
+							return false
+						}
+						if bi, isB := cl.Call.Value.(*ssa.Builtin); !isB || bi.Name() != "len" {
+							return false
+						}
+						sl, isSl := cl.Call.Args[0].Type().Underlying().(*types.Slice)
+						return isSl && types.Identical(sl.Elem(), procT)
+					}
+					x, y, op := b.X, b.Y, b.Op
+					if isLen(y) {
+						x, y, op = y, x, FlipOp(op)
+					}
+					k, isK := ConstInt(y)
+					if !isLen(x) || !isK {
+						return false
+					}
+					var val, known bool // len op k, with len >= 1
+					switch {
+					case op == token.GTR && k == 0, op == token.GEQ && k == 1, op == token.NEQ && k == 0:
+						val, known = true, true
+					case op == token.LEQ && k == 0, op == token.LSS && k == 1, op == token.EQL && k == 0:
+						val, known = false, true
+					}
+					return known && val == want
 				}
-				cl, isCall := f.Y.(*ssa.Call)
-				if !isCall {
-					return false
-				}
-				if bi, isB := cl.Call.Value.(*ssa.Builtin); !isB || bi.Name() != "len" {
-					return false
-				}
-				sl, isSl := cl.Call.Args[0].Type().Underlying().(*types.Slice)
-				return isSl && types.Identical(sl.Elem(), procT)
 			}
 			errIsNil := func(op token.Token) func(ssa.Value) bool {
 				return func(v ssa.Value) bool {
@@ -1243,10 +1264,10 @@ func c19PostprocessorBody(c *Ctx) {
 					return ok && b.Op == op && IsNilConst(b.Y) && types.Identical(b.X.Type(), errType)
 				}
 			}
-			iv := PathQuery{Fn: cur, Shallow: true,
+			iv := PathQuery{Fn: cur,
 				Stop: func(i2 ssa.Instruction) bool { return i2 == stop },
 				Exit: func(*ssa.BasicBlock) bool { return false },
-				Assume: []Assumption{{Pred: lenPos, Val: true}, {Pred: errIsNil(token.EQL), Val: true}, {Pred: errIsNil(token.NEQ), Val: false}},
+				Assume: []Assumption{{Pred: lenCmp(true), Val: true}, {Pred: lenCmp(false), Val: false}, {Pred: errIsNil(token.EQL), Val: true}, {Pred: errIsNil(token.NEQ), Val: false}},
 				Weight: func(i2 ssa.Instruction) (int, int) {
 					if IsCall(i2, sNewReader) {
 						return 1, 1
